@@ -537,15 +537,15 @@ def late_expectation(W, k, c, fn):
         if not ps:
             break
         x = ps[0]
-    # child_attrs_all also covers fields added later (the nearest such request in the chain replaces earlier ones);
-    # the nearest child_attrs request for the named field is applied on top (whether an older pending request for the same
-    # field should be merged attribute by attribute is not stated anywhere; the implemented replacement is taken as given)
+    # child_attrs_all also covers fields added later; the child_attrs requests for the named field are applied on top. Requests
+    # accumulate along the chain, attribute by attribute, exactly as they do for a member that exists when they are made
+    # (order_of_requests() holds the two orders against each other)
     caa, ca = None, {}
     for x in reversed(chain):
         if x in getattr(W, 'caa_req', {}):
-            caa = W.caa_req[x]
+            caa = dict(caa or {}, **W.caa_req[x])
         if fn in getattr(W, 'late_req', {}).get(x, {}):
-            ca = dict(W.late_req[x][fn])      # a newer request for the same field replaces the pending one as a whole
+            ca.update(W.late_req[x][fn])
     out = dict(caa or {})
     out.update(ca)
     return out
@@ -947,7 +947,101 @@ def aliasing(R, seed, h):
             R.nontrivial('aliasing', len(log), tuple(sorted(set(k for _, kws in log if isinstance(kws, list) for k, _ in kws))))
 
 
+def order_of_requests(R, seed):
+    """Metamorphic: a constraint asked for before a member exists must end up the same as when it is asked for afterwards; a derived type asked
+    to admit more than its parent must admit it; adding a member never fails because of what was derived before. Chains of variants
+    (a variant of a variant), child_attrs and child_attrs_all, append_field and insert_field, members of the class's own type."""
+    import itertools
+    import decimal as _d
+    from spyne import ComplexModel, Unicode, Integer, Decimal, Array
+    rng = core.rng_for(seed, PROP, 'order_of_requests')
+    n = [0]
+
+    def fresh(members):
+        n[0] += 1
+        return type('OR%d' % n[0], (ComplexModel,), dict(members, __namespace__='urn:vf:c15:or'))
+
+    def attrs_of(cls, member, names):
+        t = cls._type_info.get(member)
+        if t is None:
+            return 'MISSING'
+        return tuple((k, getattr(t.Attributes, k)) for k in names)
+    requests = [dict(min_occurs=1), dict(nillable=False), dict(max_len=3), dict(min_occurs=1, nillable=False), dict(min_len=1)]
+    names = ('min_occurs', 'nillable', 'max_len', 'min_len')
+    for chain_len, how, adder in itertools.product((1, 2, 3), ('child_attrs', 'child_attrs_all'), ('append', 'insert')):
+        for rep in range(3):
+            reqs = [rng.choice(requests) for _ in range(chain_len)]
+            R.evaluations += 1
+            case = {'scenario': 'order_of_requests', 'seed': seed, 'chain': reqs, 'how': how, 'adder': adder}
+
+            def derive(root):
+                out, cur = [], root
+                for r in reqs:
+                    cur = cur.customize(**({'child_attrs': {'late': r}} if how == 'child_attrs' else {'child_attrs_all': r}))
+                    out.append(cur)
+                return out
+            # member first, then the derivations
+            A = fresh({'a': Unicode, 'late': Unicode})
+            want = [attrs_of(v, 'late', names) for v in derive(A)]
+            # derivations first, then the member
+            B = fresh({'a': Unicode})
+            vs = derive(B)
+            try:
+                if adder == 'append':
+                    B.append_field('late', Unicode)
+                else:
+                    B.insert_field(1, 'late', Unicode)
+            except Exception as e:
+                R.violation('adding a member after %d derivation(s) raised %s: %s' % (chain_len, type(e).__name__, str(e)[:100]), case,
+                            mech='late_member:add_raises:%s' % type(e).__name__)
+                continue
+            got = [attrs_of(v, 'late', names) for v in vs]
+            R.count('order_of_requests_compared')
+            R.nontrivial('order_of_requests', chain_len, how, adder, tuple(sorted(k for r in reqs for k in r)))
+            for i, (g, w) in enumerate(zip(got, want)):
+                if g != w:
+                    R.violation('variant %d of a chain of %d (%s, %s): member added later has %r, member present from the start has %r' % (i + 1, chain_len, how, adder, g, w),
+                                case, mech='late_member:%s:differs_from_early:%s' % (how, 'first_variant' if i == 0 else 'variant_of_variant'))
+                    break
+    # a member of the class's own type (and of a variant's), added while variants exist
+    for kind in ('own', 'array_of_own', 'variant'):
+        for pre in ('child_attrs_all', 'plain_customize', 'none'):
+            R.evaluations += 1
+            X = fresh({'a': Unicode})
+            V = X.customize(child_attrs_all=dict(min_occurs=1)) if pre == 'child_attrs_all' else X.customize(min_occurs=1) if pre == 'plain_customize' else None
+            ft = X if kind == 'own' else Array(X) if kind == 'array_of_own' else (V if V is not None else X)
+            case = {'scenario': 'order_of_requests', 'seed': seed, 'self_member': kind, 'variants': pre}
+            try:
+                X.append_field('p', ft)
+            except Exception as e:
+                R.violation('append_field of a member of the class\'s own type (%s) with variants (%s) raised %s: %s' % (kind, pre, type(e).__name__, str(e)[:100]), case,
+                            mech='self_member:add_raises:%s' % type(e).__name__)
+                continue
+            R.count('self_members_added')
+            missing = [c.__name__ for c in (X, V) if c is not None and 'p' not in c._type_info]
+            if missing:
+                R.violation('after append_field the member is missing from %s' % missing, case, mech='self_member:missing_from_variant')
+    # a derived number type that is asked to admit more digits than its parent
+    for a, b in ((5, 8), (3, 4), (8, 5), (2, 30)):
+        for fa, fb in ((0, 0), (2, 3), (0, 2)):
+            R.evaluations += 1
+            if fa > a or fb > b:
+                continue
+            D1 = Decimal(total_digits=a, fraction_digits=fa)
+            D2 = D1.customize(total_digits=b, fraction_digits=fb)
+            lit = '-' + '1' * (b - fb) + ('.' + '1' * fb if fb else '')
+            case = {'scenario': 'order_of_requests', 'seed': seed, 'decimal': [a, fa, b, fb], 'literal': lit}
+            R.count('decimal_rederivations')
+            if lit.strip('-.') and not D2.validate_string(D2, lit):
+                R.violation('Decimal(%d,%d).customize(total_digits=%d, fraction_digits=%d) refuses %r (max_str_len %r)' % (a, fa, b, fb, lit, D2.Attributes.max_str_len),
+                            case, mech='requested_digits_not_admitted')
+            if not D1.validate_string(D1, '-' + '1' * (a - fa) + ('.' + '1' * fa if fa else '')):
+                R.violation('Decimal(%d,%d) refuses its own widest literal after a wider type was derived from it' % (a, fa), case, mech='frame:decimal_parent_changed')
+
+
 def run(spec, R):
+    if spec['first'] == 0:
+        order_of_requests(R, spec['seed'])
     for h in range(spec['first'], spec['first'] + spec['histories']):
         aliasing(R, spec['seed'], h)
     steps_range = (30, 45) if spec['tier'] == 'quick' else (40, 80)
@@ -977,6 +1071,11 @@ def run(spec, R):
 
 def replay(v, R):
     c = v['repro']
+    if c.get('scenario') == 'order_of_requests':
+        order_of_requests(R, c['seed'])
+        for x in R.violations[:10]:
+            print('replayed:', x.get('mech'), x.get('what'))
+        return
     steps = c.get('steps') or (c.get('step', 0) + 1)
     run_history(R, c['seed'], c['history'], steps + 1 if 'step' in c else steps)
     for x in R.violations[:10]:
